@@ -53,6 +53,7 @@ class PrintUsingFormatter:
         i = idx
         sharps = 0
         real_sharps = 0
+        decimals = 0
 
         if fmt[i] in '+-':
             options['sign'] = ('begin', fmt[i])
@@ -69,6 +70,8 @@ class PrintUsingFormatter:
             elif fmt[i] == '#':
                 sharps += 1
                 real_sharps += 1
+                if 'decimal_point' in options:
+                    decimals += 1
                 i += 1
             elif fmt[i] == ',':
                 options['comma'] = True
@@ -84,6 +87,7 @@ class PrintUsingFormatter:
                 break
 
         options['real_sharps'] = real_sharps
+        options['decimals'] = decimals
         return i - idx, ('num', sharps*'#', options)
 
 
@@ -122,8 +126,10 @@ class PrintUsingFormatter:
         if options.get('comma', False):
             fmt_str += ','
         if 'decimal_point' in options:
+            # (the digit positions after the point: a trailing sign
+            # is not one of them)
             fmt_str += '.'
-            fmt_str += str(len(fmt) - options['decimal_point'])
+            fmt_str += str(options['decimals'])
             fmt_str += 'f'
         else:
             # a field without a decimal point shows no decimals
